@@ -1008,10 +1008,15 @@ class C19(Check):
         subset = k.sample(names, k.choice([1, 1, 2, 3, 5, 8, 16, 40]) if arm != "min-imports" else k.choice([1, 2, 3, 5]))
         nclients = k.choice([2, 2, 3, 4])
         n = k.choice([10, 20, 40, 80, 120]) if arm != "min-imports" else k.choice([6, 12, 25])
+        scale = arm != "min-imports" and k.random() < 0.025
+        if scale:
+            # scale runs: hundreds of DISTINCT calls on one or two entry points (more than any bounded memo holds), then the first calls again
+            subset = k.sample(names, k.choice([1, 1, 2]))
+            n = k.choice([300, 560])
         ops = []
         pool = []  # recent (entry, args) so that the same call is repeated after other calls
         for _ in range(n):
-            if pool and w.random() < 0.25:
+            if pool and w.random() < (0.25 if not scale else 0.03):
                 name, args = w.choice(pool)
             else:
                 name = w.choice(subset)
@@ -1027,6 +1032,8 @@ class C19(Check):
             if f.random() < 0.1:
                 op["entropy_reseed"] = f.getrandbits(32)
             ops.append(op)
+        if scale:
+            ops += [dict(o) for o in ops[:10]]
         return {"knobs": {"clients": nclients}, "ops": ops}
 
     def sample(self, case):
